@@ -414,6 +414,51 @@ def dispatch_table(src, fn, ty):
     return rows, lookup_role, roles
 
 
+def guard_info(body, call_re, what):
+    """Where the first match of call_re sits in body: (number of `return`s textually before it, headers of
+    the enclosing brace blocks, innermost last). A call inside the *condition* of an `if` is not enclosed
+    by that `if`'s block."""
+    m = re.search(call_re, body)
+    if not m:
+        die(f"{what}: call {call_re} not found")
+    stack, i, seg_start, returns = [], 0, 0, 0
+    while i < m.start():
+        c = body[i]
+        if c == '"':
+            i += 1
+            while i < m.start() and body[i] != '"':
+                i += 2 if body[i] == "\\" else 1
+        elif c == "{":
+            # the wrapper of a textually inlined call is not a block of the caller
+            wrapper = body.startswith("{ /*call:", i)
+            stack.append("<inlined>" if wrapper else " ".join(body[seg_start:i].split()))
+            seg_start = i + 1
+        elif c == "}":
+            if stack:
+                stack.pop()
+            seg_start = i + 1
+        elif c == ";":
+            seg_start = i + 1
+        elif c == "r" and "<inlined>" not in stack:
+            # an early return of THIS function (a `return` inside an inlined helper leaves the helper only);
+            # `return Err(..)` answers an error - nothing is acknowledged - and does not count
+            rm = re.compile(r"\breturn\b(?!\s*Err\b)").match(body, i)
+            if rm and (i == 0 or not (body[i - 1].isalnum() or body[i - 1] == "_")):
+                returns += 1
+        i += 1
+    stack = [h for h in stack if h != "<inlined>"]
+    # blocks that are not control flow (plain `{`, inlined-call wrappers, struct literals) do not guard
+    headers = [h for h in stack if re.search(r"\b(if|else|match|while|for|loop)\b|=>\s*$", h)]
+    return returns, headers
+
+
+def unconditional(body, call_re, what, allow_some_binding=False):
+    returns, headers = guard_info(body, call_re, what)
+    if allow_some_binding:
+        headers = [h for h in headers if not re.fullmatch(r"if\s+let\s+Some\s*\(\s*\w+\s*\)\s*=\s*&?\s*\w+", h)]
+    return returns == 0 and not headers
+
+
 def lean_str(s):
     return '"' + s.replace("\\", "\\\\").replace('"', '\\"') + '"'
 
@@ -472,7 +517,8 @@ def main():
     p_lib = os.path.join(repo, "rs/anda_db_server/src/lib.rs")
     p_err = os.path.join(repo, "rs/anda_db_server/src/error.rs")
     p_auth = os.path.join(repo, "rs/anda_db_server/src/auth.rs")
-    for p in (p_mod, p_lib, p_err, p_auth):
+    p_statefile = os.path.join(repo, "rs/anda_db_server/src/state.rs")
+    for p in (p_mod, p_lib, p_err, p_auth, p_statefile):
         if not os.path.exists(p):
             die(f"missing source file {p}")
     mod = cut_test_module(strip_comments(open(p_mod).read()))
@@ -680,6 +726,18 @@ def main():
     only_unauthorized = answers == {"unauthorized"}
     principals_answered = sorted(set(re.findall(r"\bPrincipal::(\w+)", abody)))
 
+    # state.rs: is every step on the way to the PUT taken unconditionally? (a skip conditioned on the
+    # in-memory / engine value of the extension would acknowledge changes that are not durable)
+    st = cut_test_module(strip_comments(open(p_statefile).read()))
+    save_re = r"\bsave_extension_from\s*\("
+    persist_keys_uncond = unconditional(fn_body(st, "persist_api_keys")[0], save_re, "persist_api_keys", True)
+    persist_reg_uncond = unconditional(fn_body(st, "persist_registry")[0], save_re, "persist_registry", True)
+    pk_re = r"(/\*call:persist_api_keys\*/|\bpersist_api_keys\s*\()"
+    store_uncond = unconditional(inlined(st, "store_api_key"), pk_re, "store_api_key")
+    st_re = r"(/\*call:store_api_key\*/|\bstore_api_key\s*\()"
+    set_uncond = unconditional(inlined(st, "set_db_api_key"), st_re, "set_db_api_key")
+    remove_cond = not unconditional(inlined(st, "remove_db_api_key"), st_re, "remove_db_api_key")
+
     # build_router: ordered chain of builder calls
     rb, _ = fn_body(lib, "build_router")
     chain = []
@@ -799,6 +857,15 @@ def main():
     w("/-- every `ApiError` that `authorize` (helpers inlined) constructs is `unauthorized()` -/")
     w(f"def authorizeOnlyErrorIsUnauthorized : Bool := {lean_bool(only_unauthorized)}")
     lst("authorizePrincipals", "String", [lean_str(x) for x in principals_answered])
+    w("/-- state.rs: the call chain set_db_api_key → store_api_key → persist_api_keys → save_extension_from (and")
+    w("persist_registry → save_extension_from) has no early `return` before the call and no enclosing")
+    w("conditional block other than `if let Some(db) = <primary>`; remove_db_api_key stores conditionally")
+    w("(it answers `false` without persisting when the in-memory map has no binding). -/")
+    w(f"def persistKeysUnconditional : Bool := {lean_bool(persist_keys_uncond)}")
+    w(f"def persistRegistryUnconditional : Bool := {lean_bool(persist_reg_uncond)}")
+    w(f"def storeAlwaysPersists : Bool := {lean_bool(store_uncond)}")
+    w(f"def setAlwaysStores : Bool := {lean_bool(set_uncond)}")
+    w(f"def removeStoresConditionally : Bool := {lean_bool(remove_cond)}")
     w("/-- `build_router`: builder calls in order (a `route_layer` only covers routes added before it). -/")
     lst("routerChain", "(String × String)", [f"({lean_str(k)}, {lean_str(v)})" for k, v in chain])
 
